@@ -346,6 +346,74 @@ func tableSnapshot(e *Env) string {
 	return sb.String()
 }
 
+// c20FailureBursts is phase 4: for every value whose encoding must fail (a body that refuses, an unregistered
+// key with nothing to fill in, an over-long list), all goroutines at once perform that failing encode into a
+// buffer they throw away and then a burst of ordinary encodes of the same type, compared with the sequential
+// bytes.  Error paths are where pooled scratch objects get returned twice or unreset; the burst right behind the
+// failure, on every P at the same time, is when two goroutines end up sharing one.
+func c20FailureBursts(e *Env, cs []pcase, mode string) {
+	r := e.R
+	byType := map[reflect.Type][]int{}
+	for i := range cs {
+		ty := reflect.TypeOf(cs[i].v)
+		byType[ty] = append(byType[ty], i)
+	}
+	const G = 32
+	burst := e.N(25, 200)
+	if mode == "race-workload-child" {
+		burst = e.N(8, 60)
+	}
+	var bursts, calls int64
+	for _, f := range parFailers {
+		idx := byType[reflect.TypeOf(f)]
+		if len(idx) == 0 {
+			continue
+		}
+		bursts++
+		bad := make([]string, G)
+		var ready int32
+		var wg sync.WaitGroup
+		for gi := 0; gi < G; gi++ {
+			wg.Add(1)
+			go func(gi int) {
+				defer wg.Done()
+				fail := val.Clone(f)
+				ms := make([]any, burst)
+				for k := range ms {
+					ms[k] = val.Clone(cs[idx[(gi+k)%len(idx)]].v)
+				}
+				out := new(bytes.Buffer)
+				atomic.AddInt32(&ready, 1)
+				for spins := 0; atomic.LoadInt32(&ready) < G; spins++ {
+					if spins > 1000 {
+						runtime.Gosched()
+					}
+				}
+				LibEncode(fail, new(bytes.Buffer))
+				for k := range ms {
+					c := &cs[idx[(gi+k)%len(idx)]]
+					out.Reset()
+					err, p := LibEncode(ms[k], out)
+					if err != nil || p != nil || !bytes.Equal(out.Bytes(), c.bytes) {
+						bad[gi] = fmt.Sprintf("encode %d after the failed one: err=%v panic=%v got=%s want=%s", k, err, p, val.Hex(out.Bytes(), 48), val.Hex(c.bytes, 48))
+						return
+					}
+				}
+			}(gi)
+		}
+		wg.Wait()
+		calls += int64(G * (burst + 1))
+		for gi, b := range bad {
+			if b != "" {
+				r.Violate("C20/parallel-result-differs-from-sequential/encode-after-failed-encode/"+fmt.Sprintf("%T", f), "C20/parallel-result-differs-from-sequential", map[string]any{"type": fmt.Sprintf("%T", f), "goroutine": gi, "detail": b, "build": mode, "phase": "32 goroutines: one failing encode each, then a burst of ordinary encodes of the same type"})
+				break
+			}
+		}
+	}
+	r.Evals(calls)
+	r.Set("phase4_failure_bursts", map[string]any{"failing_values": bursts, "goroutines": G, "encodes_after_each_failure": burst})
+}
+
 // c20TableHammer is phase 3: one discriminator table at a time, 16 goroutines look DIFFERENT registered keys of
 // that table up at the same moment, in a tight loop (the factory directly, and through the decoder of the owning
 // message on a tiny image), so that whatever a look-up path shares between calls - a "last hit" memo, a scratch
@@ -545,7 +613,10 @@ func c20Child(e *Env, mode string) {
 				}
 			}
 		}
-		c20TableHammer(e, mode)
+		if mode != "absent-workload-child" {
+			c20TableHammer(e, mode)
+			c20FailureBursts(e, cs, mode)
+		}
 		after := tableSnapshot(e)
 		st := concurrencyStats(cs, evs)
 		r.Evals(int64(st["library_calls"].(int)))
@@ -609,7 +680,7 @@ func c20(e *Env) {
 		c20Child(e, e.Args[0])
 		return
 	}
-	r.Rule("expected bytes/messages for 3 canonical values of each of the 170 types are computed first, sequentially; then 64 goroutines (busy-wait barrier, no channel or shared atomic inside the measured region) each perform 1000 (thorough 10000) encode+decode operations on randomly chosen cases, on private clones, private send buffers that still hold the frames queued before, and private receivers — frames and extended messages included, so the checksum registry and all 18 discriminator maps are read concurrently — plus, every fourth operation, a direct Calc of all four registered checksum services on a private buffer, and every sixteenth an encode that must fail (a body that refuses, an unregistered key with absent body, an over-long list) into a discarded buffer; a third workload child runs with the checksum registry emptied first; then 200 goroutines under GOMAXPROCS=256 decoding messages with 20 000-element object lists (far more than 64 calls inside a list reader at once); then, one discriminator table at a time, 16 goroutines looking different registered keys of that table up at the same moment in a tight loop (factory and owning decoder); the same workload with 250/2500 operations per goroutine in a -race build; first-use trials: 4 (thorough 32) fresh processes (alternating plain / -race builds) in which the very first touch of every table and checksum service happens concurrently from 16 goroutines, judged against the reference codec. distinct_nontrivial = distinct (type,type) pairs whose calls were observed overlapping in real time, summed over the runs")
+	r.Rule("expected bytes/messages for 3 canonical values of each of the 170 types are computed first, sequentially; then 64 goroutines (busy-wait barrier, no channel or shared atomic inside the measured region) each perform 1000 (thorough 10000) encode+decode operations on randomly chosen cases, on private clones, private send buffers that still hold the frames queued before, and private receivers — frames and extended messages included, so the checksum registry and all 18 discriminator maps are read concurrently — plus, every fourth operation, a direct Calc of all four registered checksum services on a private buffer, and every sixteenth an encode that must fail (a body that refuses, an unregistered key with absent body, an over-long list) into a discarded buffer; a third workload child runs with the checksum registry emptied first; then 200 goroutines under GOMAXPROCS=256 decoding messages with 20 000-element object lists (far more than 64 calls inside a list reader at once); then, one discriminator table at a time, 16 goroutines looking different registered keys of that table up at the same moment in a tight loop (factory and owning decoder); then, for every value whose encoding must fail, 32 goroutines at once perform the failing encode followed by a burst of ordinary encodes of the same type; the same workload with 250/2500 operations per goroutine in a -race build; first-use trials: 4 (thorough 32) fresh processes (alternating plain / -race builds) in which the very first touch of every table and checksum service happens concurrently from 16 goroutines, judged against the reference codec. distinct_nontrivial = distinct (type,type) pairs whose calls were observed overlapping in real time, summed over the runs")
 	r.Explain("Oracle: every parallel result equals the sequential one (bytes byte-for-byte, messages ≡); zero race-detector reports (counted from the log) and no runtime 'concurrent map' abort; the registered key→type answers of all 18 factories are identical before and after. Evidence numbers (overlapping call pairs, concurrency histogram, distinct overlapping type pairs) are computed offline from per-goroutine logs.")
 	r.Assume("the exported Registry…Factory mutators are not called concurrently: the property says tables are only read after start-up", "the race detector judges only the accesses the workload performed")
 	type run struct{ bin, mode, label string }
